@@ -51,7 +51,7 @@ OInit == [cfg |-> [ka |-> 0], opened |-> FALSE, now |-> 0,
           accFirst |-> Empty,
           wireErrs |-> 0, loopErrs |-> 0, excLogs |-> 0, goaway |-> 0,
           cwin |-> 65535, initwin |-> 65535, swin |-> Empty, illegal |-> FALSE, unusual |-> {},
-          held |-> 0, maxHeld |-> 0, spins |-> 0,
+          held |-> 0, maxHeld |-> 0, spins |-> 0, fed |-> 0,
           lastByteAt |-> 0, nstarted |-> 0, startOrder |-> <<>>,
           endOrder |-> <<>>, n |-> 0]
 
@@ -153,6 +153,7 @@ OStep(o0, ev) ==
                 r3 == [a \in DOMAIN r2 |->
                           IF r2[a].head /\ r2[a].headAt < 0 THEN [r2[a] EXCEPT !.headAt = o.now] ELSE r2[a]]
             IN [o EXCEPT !.reqs = r3, !.lastByteAt = IF ev.n > 0 THEN o.now ELSE @,
+                         !.fed = @ + ev.n,
                          !.cerr = IF Has(ev, "cerr") /\ ev.cerr THEN TRUE ELSE @]
       [] ev.e = "c_eof" -> [o EXCEPT !.gone = TRUE]
       [] ev.e = "c_reset" -> [o EXCEPT !.gone = TRUE, !.reset = TRUE]
